@@ -13,7 +13,8 @@ RULE = ('T2: formatparam (generic and cookie tspecials), bytes(element) after co
 	'element, Content-Type, Content-Disposition, Cookie and Set-Cookie evaluated by the Gallina model (vm_compute) and by the implementation on the same inputs: '
 	'parameter values over every separator, whitespace, backslash, double quote, controls, Latin-1 and arbitrary Unicode; wire strings with sloppy whitespace, '
 	'quoted / unquoted / RFC 5987 extended values in several charsets, RFC 2231 continuations (ordered, shuffled, gaps, signs, leading zeros, underscores), '
-	'duplicates, stray separators, unbalanced quotes, encoded-word-like octets. Oracle: compose -> parse gives back the value and exactly the parameter names and '
+	'duplicates, stray separators, unbalanced quotes, encoded-word-like octets; for the round trip every value of up to 4 characters over {a, ", ;, backslash}, double quotes at both '
+	'edges / one edge / doubled / behind backslashes / next to separators around a list of inner texts, in all element classes and in list fields. Oracle: compose -> parse gives back the value and exactly the parameter names and '
 	'values, alone and as a joined list read through Headers.elements. non-trivial = distinct (kind, input)')
 EXHAUSTIVE = {'quick': False, 'thorough': False}
 TRUSTED = ['harness/tables/element.py, headers_api.py, percent.py (T1: tspecials classes, pinned regex texts, extended-parameter framing, cookie attribute names, charset alias '
@@ -145,6 +146,85 @@ def gen_elem(rng, cls=None, domain='any'):
 	if cls == 'disp' and domain == 'prop':
 		ps = [p for p in ps if p[0] not in ('inline', 'attachment', 'form-data')]
 	return {'cls': cls, 'value': gen_value(rng, cls, domain), 'cookie': gen_cookie(rng, domain), 'params': ps}
+
+
+# ---- values built around double quotes and backslashes (quote at both edges, at one edge, in the middle, doubled, behind backslashes, next to separators)
+QUOTE_INNERS = ['', 'a', 'xyzzy', '1.0', 'W/"1"', 'draft" and "final', 'a b', 'a;b', 'a,b', 'a=b', 'a; b="c"', 'a", "b', '""', 'a""b', 'a"b"c', '\\', 'a\\b', '/', '?', 'a;"b";c', ',', ';',
+	'x' * 40]
+QUOTE_WRAPS = [('"', '"'), ('"', ''), ('', '"'), ('""', '""'), ('"', '""'), ('\\"', '\\"'), ('"', '\\"'), ('\\"', '"'), ('"\\', '"'), ('"', '\\\\"'), ("'", "'"), ('"', '";'), (';"', '"'),
+	('"', '",'), (',"', '"'), ('="', '"'), ('a"', '"'), ('"', '"a'), ('" ', ' "'), ('é"', '"'), ('"', '"é')]
+QUOTE_PIECES = ['"', '"', '"', '""', '\\', '\\"', '\\\\', ';', ',', '=', ' ', 'a', 'xy', '1.0', '/', ':', '?', "'", 'é']
+
+
+def quote_shapes(big):
+	"""deterministic: every value of up to 4 (thorough: 5) characters over {a, ", ;, backslash}, of up to 3 over {a, space, ", comma, =, backslash}, and every wrap of every inner text"""
+	import itertools
+	out, seen = [], set()
+	for alpha, n in (('a";\\', 5 if big else 4), ('a ",=\\', 4 if big else 3)):
+		for l in range(1, n + 1):
+			for t in itertools.product(alpha, repeat=l):
+				out.append(''.join(t))
+	for a, b in QUOTE_WRAPS:
+		for inner in QUOTE_INNERS:
+			out.append(a + inner + b)
+	res = []
+	for t in out:
+		if t and t == t.strip(' \t\n\r\x0b\x0c') and t not in seen:
+			seen.add(t)
+			res.append(t)
+	return res
+
+
+def gen_qtext(rng):
+	"""random value in the property domain that is dense in double quotes, backslashes and separators; four times in ten wrapped in double quotes"""
+	t = ''.join(rng.choice(QUOTE_PIECES) for _ in range(rng.randint(0, 5)))
+	r = rng.random()
+	if r < 0.4:
+		t = '"' + t + '"'
+	elif r < 0.5:
+		t = rng.choice(['"', '']) + t + rng.choice(['"', ''])
+	return t.strip(' \t\n\r\x0b\x0c')
+
+
+def quote_cases(rng, big):
+	one = lambda cls, key, t: {'cls': cls, 'value': 'inline' if cls == 'disp' else ('text/plain' if cls == 'ctype' else 'v'), 'cookie': ['n', 'v'], 'params': [[key, {'t': t}]]}
+	cases = []
+	for i, t in enumerate(quote_shapes(big)):
+		cases.append(dict(one('generic', 'a', t), k='rt'))
+		j = i % 6
+		if j == 0:
+			cases.append(dict(one('disp', 'filename', t), k='rt'))
+		elif j == 1:
+			cases.append(dict(one('ctype', 'charset', t), k='rt'))
+		elif j == 2:
+			cases.append(dict(one('cookie', 'path', t), k='rt'))
+		elif j == 3:
+			cases.append({'k': 'rt_list', 'lcls': 'generic', 'elems': [one('generic', 'a', t), one('generic', 'b', 'y z')]})
+		elif j == 4:
+			cases.append({'k': 'rt_list', 'lcls': 'generic', 'elems': [one('generic', 'x-y', 'q'), one('generic', 'a', t)]})
+		else:
+			cases.append({'k': 'rt_list', 'lcls': 'setcookie', 'elems': [one('cookie', rng.choice(['path', 'domain', 'expires']), t), one('cookie', 'path', '/')]})
+	for _ in range(8000 if big else 500):
+		e = gen_elem(rng, domain='prop')
+		keys = [p[0] for p in e['params'] if not (e['cls'] == 'ctype' and p[0] == 'boundary')]
+		if not keys:
+			e['params'].append(['a', None])
+			keys = ['a']
+		for p in e['params']:
+			if p[0] in keys and (p[0] == keys[0] or rng.random() < 0.5):
+				p[1] = {'t': gen_qtext(rng)}
+		e['k'] = 'rt'
+		cases.append(e)
+	for _ in range(3000 if big else 250):
+		lcls = rng.choice(['generic', 'generic', 'generic', 'setcookie'])
+		els = []
+		for _ in range(rng.randint(1, 3)):
+			e = gen_elem(rng, 'generic' if lcls == 'generic' else 'cookie', domain='prop')
+			if not e['params'] or rng.random() < 0.7:
+				e['params'] = [p for p in e['params'] if p[0] != 'a'] + [['a', {'t': gen_qtext(rng)}]]
+			els.append(e)
+		cases.append({'k': 'rt_list', 'lcls': lcls, 'elems': els})
+	return cases
 
 
 # ---- wire strings for the parse direction
@@ -293,6 +373,8 @@ def gen_cases(rng, tier):
 				e['params'] = []
 			els.append(e)
 		cases.append({'k': 'rt_list', 'lcls': lcls, 'elems': els})
+	# last, so that the cases above are the same as before for a given seed
+	cases.extend(quote_cases(rng, big))
 	return cases
 
 
@@ -592,22 +674,67 @@ def _texts(c):
 			yield e, k, pv or ''
 
 
+WS = ' \t\n\r\x0b\x0c'
+
+
+def _sep_before_quotes(t, seps, parity):
+	"""t contains one of seps at a place where the number of double quotes that follow it inside t has the given parity"""
+	return any(ch in seps and t[i + 1:].count('"') % 2 == parity for i, ch in enumerate(t))
+
+
+def d17_value(t, in_list):
+	"""D17 as a predicate: exactly the ASCII values (no leading/trailing whitespace) that the generic quoting of the pinned tree does not bring back.
+	Established by exhaustive enumeration of every value of up to 6 characters over {a, space, ", \\, ;, =, comma} alone, of every pair of values of up to
+	3 characters in two parameters of one element and in two elements of a list, and of every value of up to 5 characters in lists of one and three
+	elements (predicate and oracle agree on all of them; the other values with double quotes, e.g. "xyzzy", a""b or a;"b", do come back):
+	 * an odd number of double quotes (RE_PARAMS / RE_SPLIT count the escaped quote: the separator in front of the parameter is no longer seen),
+	 * a backslash directly in front of a backslash or of a double quote (the unescape regex drops one backslash of every run: a run of n in the value is
+	   2n or 2n+1 on the wire and 2n-1 or 2n after unescaping, which is n only for a single backslash that does not precede a quote),
+	 * a semicolon (in a list field also a comma) that is followed, inside the value, by an odd number of double quotes (with the closing quote the
+	   count to the end of the element is even and the regex splits there)."""
+	return t.count('"') % 2 == 1 or '\\\\' in t or '\\"' in t or _sep_before_quotes(t, ';,' if in_list else ';', 1)
+
+
+def d33_value(t, in_list):
+	"""D33 as a predicate: exactly the non-empty ASCII attribute values a cookie element (never quoted) does not bring back; same enumeration as d17_value
+	for Cookie elements and Set-Cookie lists: an odd number of double quotes, a double quote at both ends (taken for a quoted-string), a semicolon
+	(in a Set-Cookie list also a comma) followed inside the value by an even number of double quotes, surrounding whitespace. Backslashes are harmless."""
+	return t.count('"') % 2 == 1 or (len(t) > 1 and t[0] == '"' == t[-1]) or _sep_before_quotes(t, ';,' if in_list else ';', 0) or t != t.strip(WS)
+
+
+def expires_value(t, swallows):
+	"""expires=<t> inside a Set-Cookie list (ASCII, non-empty). SetCookie.split rewrites expires=([^"][^;]+) to expires="..." before splitting.
+	swallows: the attribute is the last one of a cookie that is followed by another cookie (the rewrite then runs into the next cookie).
+	Not rewritten (t opens with a double quote, is a single character with nothing to run into, or has a semicolon second) -> the D33 class;
+	rewritten -> D34 exactly when the rewrite runs into the next cookie, or the value has a semicolon after its first character, an odd number of double
+	quotes, any backslash (the quoted-string unescaping drops one of every run), or a comma followed inside the value by an odd number of double quotes.
+	Enumerated over every value of up to 5 characters of the same alphabet in four positions (alone, before a cookie, before an attribute, in the last cookie)."""
+	rewritten = t[0] != '"' and (len(t) > 1 or swallows) and t[1:2] != ';'
+	if not rewritten:
+		return 'D33-cookie-params-never-quoted' if d33_value(t, True) else None
+	if swallows or ';' in t[1:] or t.count('"') % 2 == 1 or '\\' in t or _sep_before_quotes(t, ',', 1):
+		return 'D34-setcookie-expires-rewrite'
+	return None
+
+
 def classify(c, o, fail):
 	if c['k'] not in ('rt', 'rt_list'):
 		return None
 	wire = bytes.fromhex(o.get('out') or o.get('wire') or '')
 	if b'=?' in wire:
 		return 'D16-element-contains-encoded-word'
-	cookie = any(e['cls'] == 'cookie' for e, _k, _t in _texts(c)) or c.get('lcls') in ('cookie', 'setcookie')
+	in_list = c['k'] == 'rt_list'
 	for e, k, t in _texts(c):
 		ascii_ = all(ord(ch) < 128 for ch in t)
-		if e['cls'] == 'cookie' and ascii_ and t and (any(ch in t for ch in ';",') or t != t.strip(' \t\n\r\x0b\x0c') or (c['k'] == 'rt_list' and ',' in t)):
-			return 'D33-cookie-params-never-quoted'
-		if ascii_ and ('"' in t or '\\\\' in t):
+		if e['cls'] == 'cookie' and ascii_ and t:
+			if in_list and c['lcls'] == 'setcookie' and k.lower() == 'expires':
+				fid = expires_value(t, e is not c['elems'][-1] and k == e['params'][-1][0])
+				if fid:
+					return fid
+			elif d33_value(t, in_list):
+				return 'D33-cookie-params-never-quoted'
+		if e['cls'] != 'cookie' and ascii_ and d17_value(t, in_list):
 			return 'D17-param-dquote-or-backslash-pair'
-		if c['k'] == 'rt_list' and c['lcls'] == 'setcookie' and k.lower() == 'expires' and t and \
-				((e is not c['elems'][-1] and k == e['params'][-1][0]) or '\\' in t):
-			return 'D34-setcookie-expires-rewrite'
 		if not ascii_ and any(ord(ch) < 0x10 for ch in t):
 			return 'D1-percent-low-octet-ext-param'
 	return None
